@@ -34,15 +34,6 @@
       allocator when it is connected and returns it when it is destroyed or when the child's connect throws
       ([conn], [unw], [sconn], [un_pre]; [dtor] returns the block of a started allocate).
 
-   6. Lifetimes of STORED VALUES (C02): every object an algorithm stores in its operation state on behalf of the
-      user is constructed and destroyed by observable events TValCtor k v / TValDtor k v ([storekind]): let_value's
-      values_ tuple, let_error's error_, finally's value_ / error_, when_all's per-child values_, stop_when's result_
-      (value case), when_any's child stores, optResult cell and final just operation.  A running node keeps its
-      store in its node state ([held]: cell for let_value / let_error, saved for finally); a completed operation
-      that still owns stores is [OStore k v st] (st, then the store, is destroyed: [dtor], [wdtor]); the children
-      of when_all / stop_when / when_any carry the store made from their value in their slot ([conc_reap]).
-      The value whose copy throws (OValT) constructs no store: no TValCtor, no TValDtor.
-
    A sender expression is a tree over the library's algorithms; the operation state of a connected
    expression is a tree [ost] of the same shape.  Three entry points, all structurally recursive
    on the expression, mirror what can happen to a real operation state:
@@ -115,12 +106,9 @@ Inductive bkind :=
 | BWhenAll                  (* when_all(a, b), values folded into one by [combine] *)
 | BStopWhen                 (* stop_when(a, b): a = source, b = trigger *)
 | BWhenAny                  (* [Calc2] when_any(a, b): see conc_child_done *)
-| BRetry (n : nat)          (* [Calc2] retry_when(a, f): b = the trigger sender f returns for the first n errors
+| BRetry (n : nat).         (* [Calc2] retry_when(a, f): b = the trigger sender f returns for the first n errors
                               (may use Var 0 = the error code); from the (n+1)-th error on f's sender fails
                               with that error *)
-| BLetV0.                   (* [Calc2 stage 6] let_value over a predecessor that sends an EMPTY value pack (defer.hpp:
-                              let_value(just(), f)): as BLetV (b sits under one binder, bound to the dummy 0), but
-                              values_ is an empty tuple: nothing is stored *)
 
 Inductive sexpr :=
 | Just (v : Z) | JustErr (e : Z) | JustDone
@@ -174,24 +162,6 @@ Definition env_ss (en : env) (own_stop : bool) : env :=
   {| e_stopped := own_stop; e_stoppable := true; e_root := false; e_q0 := e_q0 en; e_q1 := e_q1 en;
      e_sched := e_sched en; e_ss := S (e_ss en); e_alloc := e_alloc en; e_bound := e_bound en |}.
 
-(* [Calc2 stage 6] what an algorithm stores in its operation state on behalf of the user:
-   SLetV   let_value.hpp:302-304 values_ (decayed copy of the predecessor's values; the successor function receives
-           references to it and the successor operation may keep them: destroyed AFTER the successor operation,
-           :277-282 deactivateSuccOpAndDestructValues, or alone, :272-275 destructValues, when the successor's
-           connect threw);
-   SLetE   let_error.hpp:117-121 error_ (the final operation may refer to it: destroyed after it, :205-210 cleanup,
-           or by the guard :122-124 when the connect throws);
-   SFinV / SFinE   finally.hpp:374-376 value_ / :405-407 error_ (the source's result while the completion operation
-           runs: destroyed after the completion operation, :83-101, :112-118, :127-133 / :215-224, :236-244, :251-259,
-           or in the catch blocks :396-401 / :427-432 when the completion sender's connect throws);
-   SAll    when_all.hpp:146-152 one optional per child in values_, destroyed with the operation, after ops_ (:268-283);
-   SSw     stop_when.hpp:65-70 result_ (value case), destroyed with the operation, after both child operations (:300-303);
-   SAnyV   when_any.hpp:66 child | let_value(store_result): that let_value's values_;
-   SCell   when_any.hpp:56-58 optResult (copy-constructed from the stored child value), lives in the outermost
-           let_value's values_: destroyed last;
-   SAnyJ   when_any.hpp:73-76 just(optResult.value()): the value moved into the just operation (just.hpp values_). *)
-Inductive storekind := SLetV | SLetE | SFinV | SFinE | SAll | SSw | SAnyV | SCell | SAnyJ.
-
 (* observable events, compared one by one with the real library's run *)
 Inductive tev :=
 | TLeafStart (id : nat) (stopped stoppable : bool) (q0 q1 : Z) (sch cx : nat)
@@ -207,9 +177,7 @@ Inductive tev :=
 | TPred (b : bool)                     (* [Calc2] repeat_effect_until's predicate was called and returned b *)
 | TGate (ok : bool)                    (* [Calc2] retry_when's function was called; ok = it returned the trigger *)
 | TAlloc (a : nat)                     (* [Calc2 stage 5] allocate took a block from allocator a *)
-| TFree (a : nat)                      (* [Calc2 stage 5] allocate returned its block to allocator a *)
-| TValCtor (k : storekind) (v : Z)     (* [Calc2 stage 6] an algorithm constructed a stored copy of value / error v *)
-| TValDtor (k : storekind) (v : Z).    (* [Calc2 stage 6] ... and destroyed it *)
+| TFree (a : nat).                     (* [Calc2 stage 5] allocate returned its block to allocator a *)
 
 (* per-node dynamic state *)
 Inductive phase := PFirst | PSecond | PBoth.
@@ -222,8 +190,7 @@ Record nst := {
   saved : option outcome;      (* finally: a's result; when_all: first error/done; stop_when: source's result *)
   va : Z; vb : Z;              (* when_all: children's values *)
   n_iter : nat;                (* [Calc2] repeat_effect_until: predicate calls so far; retry_when: errors handled so far *)
-  cell : option Z              (* [Calc2] when_any: the first value a child produced (optResult);
-                                  [stage 6] let_value / let_error: the stored value / error while the successor runs *)
+  cell : option Z              (* [Calc2] when_any: the first value a child produced (optResult) *)
 }.
 
 (* [Calc2] completion and destruction are distinct: a completed leaf stays [OLeaf true _] and a
@@ -235,10 +202,8 @@ Inductive ost :=
 | OLeaf (completed seen : bool)                  (* a started leaf; completed = its receiver was completed *)
 | ONode (ns : nst) (a b : ost)
 | OCompl (a b : ost)                              (* [Calc2] a completed node whose children a b are not yet destroyed *)
-| OHeld (v : Z)                                   (* [Calc2] LeafR: the leaf produced v and its callable is running (it has
+| OHeld (v : Z).                                  (* [Calc2] LeafR: the leaf produced v and its callable is running (it has
                                                      requested stop on a source; the completion proceeds afterwards) *)
-| OStore (k : storekind) (v : Z) (st : ost).      (* [Calc2 stage 6] a COMPLETED operation st (or none) together with a stored
-                                                     value that is destroyed after it *)
 
 Definition mk_nst (p : phase) (en : env) : nst :=
   {| ph := p; n_env := en; own_stop := false; reg := false; adone := false; bdone := false;
@@ -312,12 +277,10 @@ Definition combine (x y : Z) : Z := (x * 31 + y) mod 1000003.
 Definition after_first (k : bkind) (en : env) (o : outcome) : outcome + (env * option outcome) :=
   match k, o with
   | BLetV, OVal v => inr (env_bind en v, None)
-  | BLetV0, OVal v => inr (env_bind en v, None)
   | BLetE, OErr e => inr (env_bind en e, None)
   | BLetD, ODone => inr (en, None)
   | BSeq, OVal _ => inr (en, None)
   | BLetV, OValT _ => inl (OErr tcode)        (* [stage 4] let_value.hpp:143-149 values_ constructed in the try; :188-193 *)
-  | BLetV0, OValT _ => inl (OErr tcode)
   | BSeq, OValT _ => inr (en, None)           (* [stage 4] the harness discards the value by reference (voided) *)
   | BFinally, OValT _ => inr (en, Some (OErr tcode))   (* [stage 4] finally.hpp:374-381 the store throws: set_error path *)
   | BFinally, _ => inr (en, Some o)
@@ -344,28 +307,10 @@ Definition is_seq (k : bkind) : bool :=
    kinds hold at most one child at a time. *)
 Definition dtor_b_first (k : bkind) : bool := match k with BStopWhen => true | _ => false end.
 
-(* [stage 6] stored values.  [unwrap st] = the operation state proper, [wdtor st] = the destruction of the stores
-   wrapped around it, innermost first.  when_all and stop_when keep the store made from a child's value
-   ([conc_reap] puts it around the child's slot) in members declared BEFORE the child operations, so they are
-   destroyed after both of them ([strip] / [stored]: when_all.hpp:268-283 values_ ... ops_; stop_when.hpp:300-303
-   result_, sourceOp_, triggerOp_; libstdc++'s std::tuple destroys element 0 first). *)
-Fixpoint unwrap (st : ost) : ost := match st with OStore _ _ s => unwrap s | _ => st end.
-Fixpoint wdtor (st : ost) : list tev := match st with OStore k v s => wdtor s ++ [TValDtor k v] | _ => [] end.
-Definition own_store (k : bkind) (sk : storekind) : bool :=
-  match k, sk with BWhenAll, SAll => true | BStopWhen, SSw => true | _, _ => false end.
-Definition strip (k : bkind) (st : ost) : ost :=
-  match st with OStore sk _ s => if own_store k sk then s else st | _ => st end.
-Definition stored (k : bkind) (st : ost) : list tev :=
-  match st with OStore sk v _ => if own_store k sk then [TValDtor sk v] else [] | _ => [] end.
-Definition wrap (h : option (storekind * Z)) (st : ost) : ost :=
-  match h with Some (k, v) => OStore k v st | None => st end.
-Definition ctor_ev (h : option (storekind * Z)) : list tev := match h with Some (k, v) => [TValCtor k v] | None => [] end.
-Definition dtor_ev (h : option (storekind * Z)) : list tev := match h with Some (k, v) => [TValDtor k v] | None => [] end.
-
 (* the destructor cascade of an operation state: the leaves' operation states that are still
-   alive, in the order they are destroyed; [stage 6] and the stored values *)
-Fixpoint dtor (e : sexpr) (st : ost) {struct e} : list tev :=
-  match e, unwrap st with
+   alive, in the order they are destroyed *)
+Fixpoint dtor (e : sexpr) (st : ost) : list tev :=
+  match e, st with
   | Leaf id, OLeaf _ _ => [TLeafDtor id]
   | LeafN id, OLeaf _ _ => [TLeafDtor id]
   | Sched _ c, OLeaf _ _ => [TSchedDtor c]
@@ -375,11 +320,10 @@ Fixpoint dtor (e : sexpr) (st : ost) {struct e} : list tev :=
       dtor s sc ++ [TFree (e_alloc (n_env ns))]
   | Un _ s, ONode _ sc _ => dtor s sc
   | Un _ s, OCompl sc _ => dtor s sc
-  | Bin k a b, ONode _ sa sb | Bin k a b, OCompl sa sb =>
-      (if dtor_b_first k then dtor b (strip k sb) ++ dtor a (strip k sa) else dtor a (strip k sa) ++ dtor b (strip k sb))
-      ++ stored k sa ++ stored k sb
+  | Bin k a b, ONode _ sa sb => if dtor_b_first k then dtor b sb ++ dtor a sa else dtor a sa ++ dtor b sb
+  | Bin k a b, OCompl sa sb => if dtor_b_first k then dtor b sb ++ dtor a sa else dtor a sa ++ dtor b sb
   | _, _ => []
-  end ++ wdtor st.
+  end.
 
 (* Sequential kinds destroy the first child's operation before connecting the second one
    (let_value.hpp predecessor_receiver::set_value, sequence.hpp predecessor_receiver::set_value,
@@ -391,23 +335,6 @@ Fixpoint dtor (e : sexpr) (st : ost) {struct e} : list tev :=
      the others forward and keep the child until their own destructor runs
        (let_value.hpp cleanup_, sequence.hpp status_, let_done.hpp startedOp_). *)
 Definition eager_dtor (k : bkind) : bool := match k with BLetE | BFinally => true | _ => false end.
-
-(* [stage 6] what a sequential node stores when its first child completed with [oa] and the second child is
-   connected: let_value / let_error keep the bound value / error in [cell] ([let_cell]), finally its source's result
-   in [saved] (after_first).  [held k sv cl] reads the store off these two fields.  The store is constructed BEFORE
-   the first child's operation is destroyed (let_value.hpp:146-158, let_error.hpp:114-121, finally.hpp:374-383 and
-   :405-409), hence [dtor1].  A value whose copy throws constructs nothing (after_first: let_value completes with
-   the error, finally stores the exception instead). *)
-Definition let_cell (k : bkind) (oa : outcome) : option Z :=
-  match k, oa with BLetV, OVal v => Some v | BLetE, OErr e => Some e | _, _ => None end.
-Definition held (k : bkind) (sv : option outcome) (cl : option Z) : option (storekind * Z) :=
-  match k with
-  | BLetV => match cl with Some v => Some (SLetV, v) | None => None end
-  | BLetE => match cl with Some e => Some (SLetE, e) | None => None end
-  | BFinally => match sv with Some (OVal v) => Some (SFinV, v) | Some (OErr e) => Some (SFinE, e) | _ => None end
-  | _ => None
-  end.
-Definition dtor1 (h : option (storekind * Z)) (a : sexpr) (sa : ost) : list tev := ctor_ev h ++ dtor a sa.
 
 (* [Calc2] unary nodes with an own stop source (let_value_with_stop_source): initial node state.
    start() registers the source's callback on the receiver's token (fused_stop_source::register_callbacks);
@@ -543,13 +470,9 @@ Definition un_done (k : ukind) (s : sexpr) (sc : ost) (tr : list tev) (o : outco
 (* a sequential node completes with its first child's result [o] (pass-through) *)
 Definition seq_pass (k : bkind) (a : sexpr) (sa : ost) (tr : list tev) (o : outcome) : res :=
   if eager_dtor k then (OFin, tr ++ dtor a sa, Some o) else (OCompl sa OFin, tr, Some o).
-(* a sequential node completes with [o] after its second child completed; [stage 6] [h] = the store it holds:
-   the eager kinds destroy it right after the second child's operation (let_error.hpp:205-210, finally.hpp:83-101
-   the guard runs before set_value, :112-118, :127-133, :215-224 ...; when the second child's connect threw there is no
-   such operation: let_error.hpp:122-124, finally.hpp:396-401); let_value keeps it until its own destructor
-   (let_value.hpp:277-282, or :272-275 after a throwing connect) *)
-Definition seq_final (k : bkind) (h : option (storekind * Z)) (b : sexpr) (sb : ost) (tr : list tev) (o : outcome) : res :=
-  if eager_dtor k then (OFin, tr ++ dtor b sb ++ dtor_ev h, Some o) else (wrap h (OCompl OFin sb), tr, Some o).
+(* a sequential node completes with [o] after its second child completed *)
+Definition seq_final (k : bkind) (b : sexpr) (sb : ost) (tr : list tev) (o : outcome) : res :=
+  if eager_dtor k then (OFin, tr ++ dtor b sb, Some o) else (OCompl OFin sb, tr, Some o).
 
 (* [Calc2] when_any.hpp defines when_any(a, b) as the composition (optResult, once_flag shared by reference)
      let_value(just(opt, a, b), [](opt&, a&, b&) { return let_value_with(once_flag, [&](flag&) { return
@@ -565,24 +488,10 @@ Definition seq_final (k : bkind) (h : option (storekind * Z)) (b : sexpr) (sb : 
    - when_all's result wa = done if the receiver's stop was requested, else its first non-value;
      error passes through (the when_all operation stays alive); done -> let_done destroys the when_all
      operation, then value(cell) if a value was stored, else done. *)
-(* [stage 6] child i (false = a, true = b) of the node in state [ns] produced the value v:
-   when_any: the child's let_value stores it (let_value.hpp:146-149), destroys the child's operation, then store_result
-             copies it into optResult if it is the first (when_any.hpp:54-59);
-   when_all: values_ emplace (when_all.hpp:146-152); stop_when: result_ emplace for the source only (stop_when.hpp:65-70;
-             the harness discards the trigger's value).  The store stays around the child's slot. *)
-Definition conc_reap (k : bkind) (i : bool) (ns : nst) (c : sexpr) (r : res) : res :=
-  match r with
-  | (sc, tr, Some (OVal v)) =>
-      match k with
-      | BWhenAny =>
-          (OStore SAnyV v OFin,
-           tr ++ TValCtor SAnyV v :: dtor c sc ++ (match cell ns with None => [TValCtor SCell v] | Some _ => [] end),
-           Some (OVal v))
-      | BWhenAll => (OStore SAll v sc, tr ++ [TValCtor SAll v], Some (OVal v))
-      | BStopWhen => if i then r else (OStore SSw v sc, tr ++ [TValCtor SSw v], Some (OVal v))
-      | _ => r
-      end
-  | _ => r
+Definition conc_reap (k : bkind) (c : sexpr) (r : res) : res :=
+  match k, r with
+  | BWhenAny, (sc, tr, Some (OVal v)) => (OFin, tr ++ dtor c sc, Some (OVal v))
+  | _, _ => r
   end.
 
 (* a concurrent algorithm (when_all / stop_when) learns that child [i] completed with [o].
@@ -645,14 +554,8 @@ Definition finish_conc (k : bkind) (a b : sexpr) (ns : nst) (sa sb : ost) (tr : 
   match fin with
   | Some o =>
       match k, o with
-      | BWhenAny, OErr _ =>                         (* [stage 6] optResult lives in the outermost let_value: destroyed last *)
-          (wrap (match cell ns with Some v => Some (SCell, v) | None => None end) (OCompl sa sb), tr, Some o)
-      | BWhenAny, _ =>                              (* let_done destroyed the when_all operation *)
-          match cell ns with
-          | Some v =>                               (* [stage 6] when_any.hpp:73-76 the value is moved into a just operation *)
-              (OStore SCell v (OStore SAnyJ v OFin), tr ++ dtor a sa ++ dtor b sb ++ [TValCtor SAnyJ v], Some o)
-          | None => (OFin, tr ++ dtor a sa ++ dtor b sb, Some o)
-          end
+      | BWhenAny, OErr _ => (OCompl sa sb, tr, Some o)
+      | BWhenAny, _ => (OFin, tr ++ dtor a sa ++ dtor b sb, Some o)    (* let_done destroyed the when_all operation *)
       | _, _ => (OCompl sa sb, tr ++ (if leak && reg ns then [TLeak (e_root (n_env ns))] else []), Some o)
       end
   | None => (ONode ns sa sb, tr, None)
@@ -688,7 +591,7 @@ Definition un_throw (k : ukind) : bool := match k with UIntoVar => true | _ => f
 Definition un_in (k : ukind) (o : outcome) : outcome := if un_fwd k then o else tmode o.
 (* child i (false = a, true = b) of a binary node *)
 Definition bin_fwd (k : bkind) (i : bool) : bool :=
-  match k, i with BLetD, _ => true | BRetry _, false => true | BLetV, true => true | BLetV0, true => true | _, _ => false end.
+  match k, i with BLetD, _ => true | BRetry _, false => true | BLetV, true => true | _, _ => false end.
 Definition bin_catch (k : bkind) (i : bool) : bool := match k, i with BSeq, true => true | _, _ => false end.
 Definition bin_throw (k : bkind) (i : bool) : bool :=
   match k, i with BLetE, _ => true | BStopWhen, false => true | _, _ => false end.
@@ -840,12 +743,11 @@ Fixpoint start (e : sexpr) (en : env) (cx : nat) {struct e} : res :=
             match after_first k en oa with
             | inl o => seq_pass k a sa tra o
             | inr (en2, sv) =>
-                let cl := let_cell k oa in
-                let tra' := tra ++ dtor1 (held k sv cl) a sa in     (* [stage 6] the store, then the first child's operation *)
+                let tra' := tra ++ dtor a sa in
                 let '(sb, trb, rb) := start b en2 cx in
                 match rb with
-                | None => (ONode (ns_set_cell (ns_set_saved (mk_nst PSecond en) sv) cl) OFin sb, tra' ++ trb, None)
-                | Some ob => seq_final k (held k sv cl) b sb (tra' ++ trb) (after_second k sv ob)
+                | None => (ONode (ns_set_saved (mk_nst PSecond en) sv) OFin sb, tra' ++ trb, None)
+                | Some ob => seq_final k b sb (tra' ++ trb) (after_second k sv ob)
                 end
             end
             end
@@ -855,13 +757,13 @@ Fixpoint start (e : sexpr) (en : env) (cx : nat) {struct e} : res :=
            already requested it runs inline and requests the own source and nothing stays
            registered), then start both children in order *)
         let ns0 := ns_set_own (ns_set_reg (mk_nst PBoth en) (negb (e_stopped en))) (e_stopped en) in
-        let '(sa, tra, ra) := conc_reap k false ns0 a (start a (env_own en (own_stop ns0)) cx) in
+        let '(sa, tra, ra) := conc_reap k a (start a (env_own en (own_stop ns0)) cx) in
         let '(ns1, _, _) :=
             match ra with
             | Some oa => conc_child_done k ns0 false oa
             | None => (ns0, false, None)
             end in
-        let '(sb, trb, rb) := conc_reap k true ns1 b (start b (env_own en (own_stop ns1)) cx) in
+        let '(sb, trb, rb) := conc_reap k b (start b (env_own en (own_stop ns1)) cx) in
         match rb with
         | None => (ONode ns1 sa sb, tra ++ trb, None)
         | Some ob =>
@@ -871,7 +773,7 @@ Fixpoint start (e : sexpr) (en : env) (cx : nat) {struct e} : res :=
             | None =>
                 (* a is still running; if b's completion newly requested the own source, a is told *)
                 if newly then
-                  let '(sa', tra2, ra2) := conc_reap k false ns2 a (stop a sa cx) in
+                  let '(sa', tra2, ra2) := conc_reap k a (stop a sa cx) in
                   match ra2 with
                   | Some oa =>
                       let '(ns3, _, fin3) := conc_child_done k ns2 false oa in
@@ -928,12 +830,11 @@ with stop (e : sexpr) (st : ost) (cx : nat) {struct e} : res :=
                 match after_first k (n_env ns') oa with
                 | inl o => seq_pass k a sa' tra o
                 | inr (en2, sv) =>
-                    let cl := let_cell k oa in
-                    let tra' := tra ++ dtor1 (held k sv cl) a sa' in
+                    let tra' := tra ++ dtor a sa' in
                     let '(sb', trb, rb) := start b en2 cx in
                     match rb with
-                    | None => (ONode (ns_set_cell (ns_set_saved (ns_set_ph ns' PSecond) sv) cl) OFin sb', tra' ++ trb, None)
-                    | Some ob => seq_final k (held k sv cl) b sb' (tra' ++ trb) (after_second k sv ob)
+                    | None => (ONode (ns_set_saved (ns_set_ph ns' PSecond) sv) OFin sb', tra' ++ trb, None)
+                    | Some ob => seq_final k b sb' (tra' ++ trb) (after_second k sv ob)
                     end
                 end
                 end
@@ -948,7 +849,7 @@ with stop (e : sexpr) (st : ost) (cx : nat) {struct e} : res :=
                     let r0a := start a (n_env ns') cx in
                     let r0bl := match res_err r0a with Some e => start b (env_bind (n_env ns') e) cx | None => (OFin, [], None) end in
                     retry_b_done n a b ns' sb' trb ob r0a r0bl
-                | _ => seq_final k (held k (saved ns) (cell ns)) b sb' trb (after_second k (saved ns) ob)
+                | _ => seq_final k b sb' trb (after_second k (saved ns) ob)
                 end
             end
         end
@@ -957,7 +858,7 @@ with stop (e : sexpr) (st : ost) (cx : nat) {struct e} : res :=
         (* the cancel callback requests the own source: the children's callbacks run, most
            recently started child first *)
         let ns1 := ns_set_own ns' true in
-        let '(sb', trb, rb) := if bdone ns1 then (sb, [], None) else conc_reap k true ns1 b (stop b sb cx) in
+        let '(sb', trb, rb) := if bdone ns1 then (sb, [], None) else conc_reap k b (stop b sb cx) in
         let '(ns2, _, fin1) :=
             match rb with
             | Some ob => conc_child_done k ns1 true ob
@@ -966,7 +867,7 @@ with stop (e : sexpr) (st : ost) (cx : nat) {struct e} : res :=
         match fin1 with
         | Some _ => finish_conc k a b ns2 sa sb' trb fin1 (leaky k)
         | None =>
-            let '(sa', tra, ra) := if adone ns2 then (sa, [], None) else conc_reap k false ns2 a (stop a sa cx) in
+            let '(sa', tra, ra) := if adone ns2 then (sa, [], None) else conc_reap k a (stop a sa cx) in
             let '(ns3, _, fin2) :=
                 match ra with
                 | Some oa => conc_child_done k ns2 false oa
@@ -1053,12 +954,11 @@ Fixpoint leafev (e : sexpr) (st : ost) (id : nat) (o : outcome) (cx : nat) : res
                 match after_first k (n_env ns) oa with
                 | inl o' => (seq_pass k a sa' tra o', hit)
                 | inr (en2, sv) =>
-                    let cl := let_cell k oa in
-                    let tra' := tra ++ dtor1 (held k sv cl) a sa' in
+                    let tra' := tra ++ dtor a sa' in
                     let '(sb', trb, rb) := start b en2 cx in
                     match rb with
-                    | None => ((ONode (ns_set_cell (ns_set_saved (ns_set_ph ns PSecond) sv) cl) OFin sb', tra' ++ trb, None), hit)
-                    | Some ob => (seq_final k (held k sv cl) b sb' (tra' ++ trb) (after_second k sv ob), hit)
+                    | None => ((ONode (ns_set_saved (ns_set_ph ns PSecond) sv) OFin sb', tra' ++ trb, None), hit)
+                    | Some ob => (seq_final k b sb' (tra' ++ trb) (after_second k sv ob), hit)
                     end
                 end
                 end
@@ -1078,7 +978,7 @@ Fixpoint leafev (e : sexpr) (st : ost) (id : nat) (o : outcome) (cx : nat) : res
                     let r0a := start a (n_env ns) cx in
                     let r0bl := match res_err r0a with Some e => start b (env_bind (n_env ns) e) cx | None => (OFin, [], None) end in
                     (retry_b_done n a b ns sb' trb ob r0a r0bl, hit)
-                | _ => (seq_final k (held k (saved ns) (cell ns)) b sb' trb (after_second k (saved ns) ob), hit)
+                | _ => (seq_final k b sb' trb (after_second k (saved ns) ob), hit)
                 end
             end
         end
@@ -1088,7 +988,7 @@ Fixpoint leafev (e : sexpr) (st : ost) (id : nat) (o : outcome) (cx : nat) : res
                        | Some v => if bin_throw k false then fst (leafev a sa id (OValK v) cx) else r0
                        | None => r0
                        end in
-              (conc_reap k false ns a r, h)) in
+              (conc_reap k a r, h)) in
         if hita then
           match ra with
           | None => ((ONode ns sa' sb, tra, None), true)
@@ -1099,7 +999,7 @@ Fixpoint leafev (e : sexpr) (st : ost) (id : nat) (o : outcome) (cx : nat) : res
               | None =>
                   (* newly requested own source: tell the sibling *)
                   if newly then
-                    let '(sb', trb, rb) := conc_reap k true ns1 b (stop b sb cx) in
+                    let '(sb', trb, rb) := conc_reap k b (stop b sb cx) in
                     match rb with
                     | Some ob =>
                         let '(ns2, _, fin2) := conc_child_done k ns1 true ob in
@@ -1110,7 +1010,7 @@ Fixpoint leafev (e : sexpr) (st : ost) (id : nat) (o : outcome) (cx : nat) : res
               end
           end
         else
-          let '((sb', trb, rb), hitb) := if bdone ns then ((sb, [], None), false) else (let (r, h) := leafev b sb id (tmode o) cx in (conc_reap k true ns b r, h)) in
+          let '((sb', trb, rb), hitb) := if bdone ns then ((sb, [], None), false) else (let (r, h) := leafev b sb id (tmode o) cx in (conc_reap k b r, h)) in
           match rb with
           | None => ((ONode ns sa sb', trb, None), hitb)
           | Some ob =>
@@ -1119,7 +1019,7 @@ Fixpoint leafev (e : sexpr) (st : ost) (id : nat) (o : outcome) (cx : nat) : res
               | Some _ => (finish_conc k a b ns1 sa sb' trb fin false, hitb)
               | None =>
                   if newly then
-                    let '(sa', tra, ra) := conc_reap k false ns1 a (stop a sa cx) in
+                    let '(sa', tra, ra) := conc_reap k a (stop a sa cx) in
                     match ra with
                     | Some oa =>
                         let '(ns2, _, fin2) := conc_child_done k ns1 false oa in
@@ -1143,18 +1043,17 @@ Definition wsa_via (id c : nat) (s : sexpr) : sexpr := Bin BFinally s (Un UUnsto
 
 (* just_from.hpp: just_from(f) = then(just(), f)   (the harness callable is applied to 0) *)
 Definition just_from (f : fn) : sexpr := Un (UThen f) (Just 0).
-(* defer.hpp: defer(f) = let_value(just(), f): the body sits under one more binder than in the C++ source;
-   [stage 6] BLetV0: that let_value stores an empty tuple *)
+(* defer.hpp: defer(f) = let_value(just(), f): the body sits under one more binder than in the C++ source *)
 Fixpoint lift (d : nat) (e : sexpr) : sexpr :=
   match e with
   | Var n => if Nat.leb d n then Var (S n) else Var n
   | Un k s => Un k (lift d s)
   | Bin k a b =>
       Bin k (lift d a)
-          (match k with BLetV | BLetV0 | BLetE | BRetry _ => lift (S d) b | _ => lift d b end)
+          (match k with BLetV | BLetE | BRetry _ => lift (S d) b | _ => lift d b end)
   | _ => e
   end.
-Definition defer (body : sexpr) : sexpr := Bin BLetV0 (Just 0) (lift 0 body).
+Definition defer (body : sexpr) : sexpr := Bin BLetV (Just 0) (lift 0 body).
 
 (* ---- whole runs ------------------------------------------------------------------------------------ *)
 (* script events; every event is delivered on a context: an external leaf completion and a stop
